@@ -6,10 +6,30 @@
 package main
 
 import (
+	"os"
+	"strings"
+	"syscall"
+
 	"verif/harness/mon"
 )
 
+// tsanFlag: the race runtime clears the shadow of every allocation of 64 KiB
+// or more by re-mmapping it, so each 128..512 KiB part buffer the uploader
+// allocates (under -race: one per part, see bin.Buffer.ResetN) costs hundreds
+// of fresh page faults. With the threshold raised the shadow is cleared with a
+// memset instead; detection is unchanged. Measured on a 500 MiB upload:
+// 6m33s -> 4.9s. GORACE is read before main, hence the one-time re-exec.
+const tsanFlag = "clear_shadow_mmap_threshold"
+
 func main() {
+	if raceEnabled {
+		if g := os.Getenv("GORACE"); !strings.Contains(g, tsanFlag) {
+			if self, err := os.Executable(); err == nil {
+				os.Setenv("GORACE", strings.TrimSpace(g+" "+tsanFlag+"=4294967296"))
+				_ = syscall.Exec(self, os.Args, os.Environ()) // returns only on failure: carry on without the flag
+			}
+		}
+	}
 	mon.Main("upmon", map[string]mon.PropFunc{
 		"C32": runC32,
 	})
